@@ -8,6 +8,8 @@ Both entry points (identify_outcomes(conditions=...) and idc(Identification)) ar
 
 from __future__ import annotations
 
+from functools import lru_cache
+
 from ..graphs import G, disjoint_triples, enum_L, enum_O
 from ..runner import Res
 from ..scm import SCM, World
@@ -18,6 +20,7 @@ from .C01 import profiles
 TITLE = "IDC estimands equal the true conditional interventional distribution"
 
 
+@lru_cache(maxsize=None)
 def _universe(tier):
     if tier == "quick":
         return [g for n in (2, 3) for g in enum_L(n)] + list(enum_O(4, max_edges=4))
